@@ -214,6 +214,82 @@ func runC14(res *Result, d *Driver, tier string, seed uint64) {
 			}
 		}
 	}
+	// batches with long names and many failing items (the error texts of a reply add up to kilobytes, still below the
+	// transport's message cap): every item keeps its own result
+	{
+		nlb := 12
+		if tier == "thorough" {
+			nlb = 200
+		}
+		for it := 0; it < nlb; it++ {
+			env.Reset()
+			nameLen := []int{30, 120, 200, 240}[rng.Intn(4)]
+			n := 10 + rng.Intn(110)
+			for n*(nameLen+60) > 27000 {
+				n--
+			}
+			failPct := []int{10, 50, 90, 100}[rng.Intn(4)]
+			var opens []container.OpenCmd
+			var links []container.SymbolicLink
+			fails := make([]bool, n)
+			for i := 0; i < n; i++ {
+				nm := fmt.Sprintf("%s%04d", strings.Repeat("n", nameLen-4), i)
+				fails[i] = rng.Chance(failPct)
+				if fails[i] {
+					opens = append(opens, container.OpenCmd{Path: "/w/no-such-dir/" + nm, Flag: os.O_RDONLY})
+					links = append(links, container.SymbolicLink{LinkPath: "/w/no-such-dir/l" + nm, Target: "/w/t"})
+				} else {
+					opens = append(opens, container.OpenCmd{Path: "/w/" + nm, Flag: os.O_CREATE | os.O_RDWR, Perm: 0644})
+					links = append(links, container.SymbolicLink{LinkPath: "/w/l" + nm, Target: "/w/t"})
+				}
+			}
+			var bad []string
+			rs, err := env.Open(opens)
+			if err != nil || len(rs) != n {
+				bad = append(bad, fmt.Sprintf("Open: err=%v results=%d items=%d", err, len(rs), n))
+			}
+			for i, r := range rs {
+				if (r.File == nil) != fails[i] || (r.Err == nil) == fails[i] {
+					if len(bad) < 5 {
+						bad = append(bad, fmt.Sprintf("Open item %d (should fail=%v): file=%v err=%v", i, fails[i], r.File != nil, r.Err))
+					}
+				} else if r.File != nil {
+					var a, b syscall.Stat_t
+					e1 := syscall.Fstat(int(r.File.Fd()), &a)
+					e2 := syscall.Stat(root+opens[i].Path, &b)
+					if (e1 != nil || e2 != nil || a.Ino != b.Ino) && len(bad) < 5 {
+						bad = append(bad, fmt.Sprintf("Open item %d: the descriptor is not the file of its path", i))
+					}
+				}
+				if r.File != nil {
+					r.File.Close()
+				}
+			}
+			errs, err := env.Symlink(links)
+			if err != nil || len(errs) != n {
+				bad = append(bad, fmt.Sprintf("Symlink: err=%v results=%d items=%d", err, len(errs), n))
+			}
+			for i := range errs {
+				_, lerr := os.Lstat(root + links[i].LinkPath)
+				if ((errs[i] == nil) == fails[i] || (lerr == nil) != (errs[i] == nil)) && len(bad) < 8 {
+					bad = append(bad, fmt.Sprintf("Symlink item %d (should fail=%v): reported err=%v, link exists=%v", i, fails[i], errs[i], lerr == nil))
+				}
+			}
+			if e := env.Ping(); e != nil {
+				bad = append(bad, "environment unusable after the batches: "+e.Error())
+			}
+			key := fmt.Sprintf("long-name batches: %d items, names of %d bytes, %d%% failing", n, nameLen, failPct)
+			res.Case(key+itoa(it), true, "long-name-batch")
+			if len(bad) > 0 {
+				res.Mismatch(Mismatch{Kind: "oracle", What: "Open/Symlink batches with long names and many failures: index-aligned results, a failing item is an error and affects no other item (C14)", Input: key, Impl: strings.Join(bad, "; "), Oracle: "violates"})
+				env.Close()
+				var e2 error
+				if env, e2 = newEnv(container.Builder{}); e2 != nil {
+					fatal("container: %v", e2)
+				}
+			}
+		}
+	}
 	// large batches, many times over on one environment: every returned descriptor is still the file of its own item
 	{
 		env.Reset()
